@@ -93,6 +93,7 @@ static jwt_checker_t *g_ck[NSLOT];
 static jwt_builder_t *g_bl[NSLOT];
 struct cbctx { char prog[4096]; char obs[65536]; };
 static struct cbctx g_ckcb[NSLOT], g_blcb[NSLOT];
+static char *g_last_tok;   /* the token most recently returned by a `bl N gen` ("@last") */
 
 static const jwk_item_t *get_item(const char *s, const char *i)
 {
@@ -385,9 +386,13 @@ static void handle(char *line)
 			else { strncpy(g_ckcb[c].prog, t[3], sizeof(g_ckcb[c].prog) - 1); rc = jwt_checker_setcb(ck, run_cb, &g_ckcb[c]); }
 			printf("rc=%d", rc ? 1 : 0);
 		} else if (!strcmp(t[2], "verify") && n >= 4) {
-			unsigned char *tok = unhex(t[3], &l1);
+			unsigned char *tok = NULL;
 			char *tx = NULL;
-			if (tok) { tx = malloc(l1 + 1); memcpy(tx, tok, l1); tx[l1] = 0; }
+			if (!strcmp(t[3], "@last")) { if (g_last_tok) tx = strdup(g_last_tok); }
+			else {
+				tok = unhex(t[3], &l1);
+				if (tok) { tx = malloc(l1 + 1); memcpy(tx, tok, l1); tx[l1] = 0; }
+			}
 			g_ckcb[c].obs[0] = 0;
 			int rc = jwt_checker_verify(ck, tx);
 			printf("rc=%d err=%d msg=%d cb=[%s]", rc ? 1 : 0, jwt_checker_error(ck), jwt_checker_error_msg(ck)[0] ? 1 : 0, g_ckcb[c].obs);
@@ -423,7 +428,8 @@ static void handle(char *line)
 			printf("tok="); putstr(tok);
 			printf(" err=%d msg=%d cb=[%s]", jwt_builder_error(bl), jwt_builder_error_msg(bl)[0] ? 1 : 0, g_blcb[b].obs);
 			if (getenv("EXEC_MSG")) printf(" text=%s", jwt_builder_error_msg(bl));
-			free(tok);
+			free(g_last_tok);
+			g_last_tok = tok;
 		} else if (!strcmp(t[2], "err")) { printf("err=%d msg=%d", jwt_builder_error(bl), jwt_builder_error_msg(bl)[0] ? 1 : 0);
 		} else if (!strcmp(t[2], "errclr")) { jwt_builder_error_clear(bl); printf("ok");
 		} else printf("badop");
@@ -453,6 +459,7 @@ int main(void)
 		handle(line);
 	}
 	free(line);
+	free(g_last_tok);
 	for (int i = 0; i < NSLOT; i++) {
 		if (g_ck[i]) jwt_checker_free(g_ck[i]);
 		if (g_bl[i]) jwt_builder_free(g_bl[i]);
